@@ -132,7 +132,10 @@ def cases(shard, tier):
                     # header fields that do not fit their fixed width, assigned after the header item was made
                     'header-id-74-chars-assigned-later', 'header-sequence-number-11-digits-assigned-later',
                     # a frame holding a channel object that was made outside the file (no CHANNEL set of this file has it)
-                    'frame-with-foreign-channel'):
+                    'frame-with-foreign-channel',
+                    # a frame of the second logical file listing a channel object of the FIRST one (equally named
+                    # channels exist in both, so the two have the same name, origin and copy number)
+                    'frame-with-channel-of-other-logical-file', 'frame-with-channel-of-other-logical-file-and-own'):
             yield {'family': fam, 'ctx': ctx, 'how': how, 'must': how != 'no-logical-file'}
     elif fam == 'window':
         for src in ('inline', 'dict', 'struct', 'h5'):
@@ -313,6 +316,13 @@ def make_spec(c):
                 sp['write']['data'] = {'$datadict': {'X': x1, 'X__1': x2}}
         elif how == 'same-channel-twice-in-frame':
             sp['ops'][4]['kw']['channels'] = [{'$ref': 'CA'}, {'$ref': 'CB'}, {'$ref': 'CA'}]
+        elif how.startswith('frame-with-channel-of-other-logical-file'):
+            sp['ops'].append({'op': 'lf', 'h': 'L1', 'kw': {'fh_id': 'SECOND'}})
+            sp['ops'].append(S.op_origin('O1', 'ORIGIN-2', lf='L1', set_name='S2'))
+            sp['ops'].append(S.op_add('channel', 'C2', 'CHAN-A', lf='L1', set_name='S2', data=_arr('float32', [3])))
+            sp['ops'].append(S.op_add('channel', 'C3', 'OTHER', lf='L1', set_name='S2', data=_arr('uint8', [3])))
+            chans = [{'$ref': 'CA'}] + ([{'$ref': 'C3'}] if how.endswith('own') else [])
+            sp['ops'].append(S.op_add('frame', 'F2', 'FR2', lf='L1', set_name='S2', channels=chans))
         elif how == 'second-lf-without-origin':
             sp['ops'].append({'op': 'lf', 'h': 'L1', 'kw': {'fh_id': 'SECOND'}})
             sp['ops'].append(S.op_add('channel', 'C2', 'CH2', lf='L1', set_name='S2', data=_arr('uint8', [2])))
